@@ -32,7 +32,7 @@ func (c20) Exec(c Case) []string {
 		case "ensure":
 			p, _ := strconv.Atoi(op[2])
 			obs = append(obs, hx(xmpp.VerifEnsurePort(unhx(op[1]), p)))
-		case "form":
+		case "form", "cform":
 			var port *string
 			if op[3] != "~" {
 				s := unhx(op[3])
@@ -40,7 +40,18 @@ func (c20) Exec(c Case) []string {
 			}
 			addr := c20render(op[1], unhx(op[2]), port)
 			// go through the public constructor: this is the address the transport will dial
-			t := xmpp.NewClientTransport(xmpp.TransportConfiguration{Address: addr})
+			var t xmpp.Transport
+			if op[0] == "cform" {
+				// the component constructor: same normalisation, same default port
+				ct, err := xmpp.NewComponentTransport(xmpp.TransportConfiguration{Address: addr})
+				if err != nil {
+					obs = append(obs, "not-xmpp")
+					continue
+				}
+				t = ct
+			} else {
+				t = xmpp.NewClientTransport(xmpp.TransportConfiguration{Address: addr})
+			}
 			xt, ok := t.(*xmpp.XMPPTransport)
 			if !ok {
 				obs = append(obs, "not-xmpp")
@@ -142,6 +153,8 @@ func (c20) Generate(rng *rand.Rand, tier string, st *Stats) []Case {
 		st.Inc("split_random")
 	}
 	for _, h := range plain {
+		add("cform", "plain", hx(h), "~")
+		add("cform", "plain", hx(h), hx("5347"))
 		add("form", "plain", hx(h), "~")
 		st.Inc("form_plain")
 		for _, p := range ports {
@@ -152,6 +165,9 @@ func (c20) Generate(rng *rand.Rand, tier string, st *Stats) []Case {
 	for _, h := range v6 {
 		add("form", "v6bare", hx(h), "~")
 		add("form", "v6br", hx(h), "~")
+		add("cform", "v6bare", hx(h), "~")
+		add("cform", "v6br", hx(h), "~")
+		add("cform", "v6br", hx(h), hx("5347"))
 		st.Inc("form_v6bare")
 		st.Inc("form_v6br")
 		for _, p := range ports {
